@@ -169,7 +169,7 @@ def all_modes():
 
 ENTRIES = ['run', 'call', 'evaluate', 'import', 'run-code']
 ENVS = ['plain', 'outer-trace', 'outer-patchers', 'before-and-after-code', 'time-module-blocked', 'time-module-replaced', 'html-formatter', 'text-formatter', 'in-a-later-section',
-        'gradescope-formatter', 'vpl-formatter', 'terminal-formatter', 'a-report-of-its-own',
+        'gradescope-formatter', 'vpl-formatter', 'terminal-formatter', 'a-report-of-its-own', 'after-the-sections-were-stopped',
         'failpoint-traceback', 'failpoint-feedback']
 
 
@@ -580,6 +580,13 @@ def _execute_case(ctx, which, case, state=None):
         files = dict(files)
         files['answer.py'] = '\n' + files['answer.py']        # the section's own text starts with the marker line's end
         case['line_shift'] = SECTION_PROLOGUE.count('\n')
+    stopped = case.get('env') == 'after-the-sections-were-stopped' and entry in ('run', 'call', 'evaluate')
+    if stopped:
+        # the file was split, a later section was looked at, and the grader went back to the whole file (stop_sections()): what is
+        # executed and reported now is the whole file again, on its own lines
+        sandbox_files = dict(files)
+        sandbox_files['answer.py'] = SECTION_PROLOGUE + '##### Part 1\n' + files['answer.py']
+        files = dict(sandbox_files)
     try:
         sandbox, report = new_sandbox(sandbox_files, tracer, threaded, allowed_time=0.15 if kind == 'timeout' else 20,
                                       own_report=case.get('env') == 'a-report-of-its-own')
@@ -595,6 +602,16 @@ def _execute_case(ctx, which, case, state=None):
             ctx.count('section_presentation_not_applicable')
             return
         ctx.count('cells_in_a_later_section')
+    if stopped:
+        from pedal.source import separate_into_sections, next_section
+        from pedal.source.sections import stop_sections
+        separate_into_sections(independent=True)
+        next_section()
+        stop_sections()
+        if report.submission.main_code != files['answer.py']:
+            ctx.count('section_presentation_not_applicable')
+            return
+        ctx.count('cells_after_the_sections_were_stopped')
     key_tail = '%s|%s' % (entry, 'threaded' if threaded else 'direct')
     # ---- history before the measured execution ---------------------------------------------------------
     pos = case.get('position', 'first')
@@ -907,7 +924,7 @@ def case_matrix(ctx, which):
                     if m['kind'] == 'timeout' and (not threaded or which != 'C05'):
                         continue        # only a threaded execution has a time limit (and only C05 looks at what is left behind)
                     for pos in ('first', 'after-failure', 'after-ok', 'after-clear_context', 'the-same-execution-before'):
-                        for env in (ENVS if which == "C05" else ENVS[:13]):
+                        for env in (ENVS if which == "C05" else ENVS[:14]):
                             if env.startswith('failpoint') and m['kind'] in ('ok',):
                                 continue
                             c = dict(m)
